@@ -1,13 +1,153 @@
 package main
 
 import (
+	"flag"
 	"fmt"
-	"golang.org/x/tools/go/packages"
+	"os"
+	"path/filepath"
+	"strings"
+	"time"
 )
 
+func usage() {
+	fmt.Fprintln(os.Stderr, `usage:
+  govc verify [-safety] [-v] <pkg.Func|pkg.Type.Method> ...   verify functions against their contracts
+  govc lemma [-v] <name-prefix> ...                           prove lemmas from /verif/spec
+  govc check <Cxx> [--tier quick|thorough]                     run the registered check of a property
+  govc replay <file>                                           re-run a recorded violation
+  govc selftest                                                must-fail / must-pass corpus`)
+	os.Exit(2)
+}
+
+func loadAll() *World {
+	w, err := LoadWorld()
+	if err != nil {
+		fmt.Fprintln(os.Stderr, "load:", err)
+		os.Exit(3)
+	}
+	if err := w.LoadRepoContracts(); err != nil {
+		fmt.Fprintln(os.Stderr, "contracts:", err)
+		os.Exit(3)
+	}
+	if err := w.LoadSpecDir(filepath.Join(verifDir(), "spec")); err != nil {
+		fmt.Fprintln(os.Stderr, "spec:", err)
+		os.Exit(3)
+	}
+	return w
+}
+
+func printUnit(r *UnitResult, verbose bool) bool {
+	ok := r.Status == "ok"
+	fmt.Printf("== %s [%s] status=%s paths=%d %dms %s\n", r.Unit, r.Kind, r.Status, r.Paths, r.ElapsedMs, r.Reason)
+	for _, o := range r.Obls {
+		good := o.Status == "proved"
+		if o.Expect == "refuted" {
+			good = o.Status == "refuted"
+		}
+		mark := "ok  "
+		if !good {
+			mark = "FAIL"
+			ok = false
+		}
+		fmt.Printf("  %s %-9s %-8s %5dms %-14s %s   -- %s\n", mark, o.Kind, o.Status, o.SolverMs, o.Backend, o.Name, o.Text)
+		if !good && o.Model != "" && verbose {
+			fmt.Println(indent(o.Model, "      "))
+		}
+		if !good && o.Raw != "" {
+			fmt.Println("      " + o.Raw)
+		}
+	}
+	if verbose {
+		for _, n := range r.Notes {
+			fmt.Println("  note:", n)
+		}
+		fmt.Println("  contracts:", strings.Join(r.Contracts, ", "))
+		fmt.Println("  inlined:", strings.Join(r.Inlined, ", "))
+		fmt.Println("  havocked:", strings.Join(r.Havocked, ", "))
+		fmt.Println("  trusted:", strings.Join(r.Trusted, "; "))
+	}
+	return ok
+}
+
+func indent(s, pre string) string {
+	return pre + strings.ReplaceAll(strings.TrimRight(s, "\n"), "\n", "\n"+pre)
+}
+
 func main() {
-	cfg := &packages.Config{Mode: packages.NeedName | packages.NeedSyntax | packages.NeedTypes | packages.NeedTypesInfo | packages.NeedImports | packages.NeedDeps | packages.NeedFiles, Dir: "/repo", BuildFlags: []string{"-tags=verif"}}
-	pkgs, err := packages.Load(cfg, "./internal/...", "./http", "./cmd/...")
-	fmt.Println(len(pkgs), err)
-	for _, p := range pkgs { fmt.Println(p.PkgPath, len(p.Syntax), p.Errors) }
+	if len(os.Args) < 2 {
+		usage()
+	}
+	defer cleanupScratch()
+	switch os.Args[1] {
+	case "verify":
+		fs := flag.NewFlagSet("verify", flag.ExitOnError)
+		safety := fs.Bool("safety", false, "record no-panic obligations")
+		verbose := fs.Bool("v", false, "verbose")
+		dump := fs.String("dump", "", "write the first failing query to this file")
+		fs.Parse(os.Args[2:])
+		w := loadAll()
+		allOK := true
+		for _, k := range fs.Args() {
+			fi := w.LookupFunc(k)
+			if fi == nil {
+				fmt.Println("unknown function", k)
+				allOK = false
+				continue
+			}
+			r := w.VerifyFunc(fi, w.contractFor(fi), VerifyOpts{Safety: *safety, Timeout: 10 * time.Second})
+			if !printUnit(r, *verbose) {
+				allOK = false
+				if *dump != "" {
+					for _, o := range r.Obls {
+						if o.Status != "proved" && o.Expect == "" {
+							os.WriteFile(*dump, []byte(o.Script), 0o644)
+							break
+						}
+					}
+				}
+			}
+		}
+		if !allOK {
+			cleanupScratch()
+			os.Exit(1)
+		}
+	case "lemma":
+		fs := flag.NewFlagSet("lemma", flag.ExitOnError)
+		verbose := fs.Bool("v", false, "verbose")
+		dump := fs.String("dump", "", "write the first failing query to this file")
+		fs.Parse(os.Args[2:])
+		w := loadAll()
+		allOK := true
+		for _, name := range w.LemmaOrd {
+			match := len(fs.Args()) == 0
+			for _, a := range fs.Args() {
+				if strings.HasPrefix(name, a) {
+					match = true
+				}
+			}
+			if !match {
+				continue
+			}
+			r := w.VerifyLemma(w.Lemmas[name], VerifyOpts{Timeout: 10 * time.Second})
+			if !printUnit(r, *verbose) {
+				allOK = false
+				if *dump != "" {
+					for _, o := range r.Obls {
+						if o.Status != "proved" && o.Expect == "" {
+							os.WriteFile(*dump, []byte(o.Script), 0o644)
+							break
+						}
+					}
+				}
+			}
+		}
+		if !allOK {
+			cleanupScratch()
+			os.Exit(1)
+		}
+	default:
+		if !dispatchExtra(os.Args[1], os.Args[2:]) {
+			usage()
+		}
+	}
 }
